@@ -21,9 +21,9 @@ TEXT = {
             "Held on the complete 2 x 65536 (type, code) grids, all 2 x 1473 echo lengths and ~10^6 ARP/NS shapes per run."),
     "C06": ("§5 C06", "closed-form SYN policy oracle over the exhaustive 512-flag grid + metamorphic cookie determinism/sensitivity pairs",
             "Held on the full flag x payload x seq-class x IP-version grid on random tuples (before and after validation/floods) and ~5*10^4 single-input perturbation pairs per run; no hash function is imposed."),
-    "C07": ("§5 C07", "executable TCP connection model (validated-flow set, boundary-learned cookies) checked against random interleaved multi-flow scripts",
+    "C07": ("§5 C07", "executable TCP connection model (validated-flow set, boundary-learned cookies) checked against random interleaved multi-flow scripts, on idle and on busy responders (hundreds to 9000 connections held), random logger / verbosity",
             "Held on ~10^5 random scripts per run incl. wrap-around arithmetic and near-miss acknowledgement numbers; one genuine defect (cookie collisions share a control block) is a recorded known finding."),
-    "C08": ("§5 C08", "metamorphic non-interference: F alone / H alone / random interleaving must give canonically equal replies",
+    "C08": ("§5 C08", "metamorphic non-interference: F alone / H alone / random interleaving must give canonically equal replies; fresh-process baselines for one-bit twin datagrams; multi-segment sessions alone vs. inside a crowd of 2 x 66 000 other connections",
             "Held on ~3*10^4 (F, H, interleaving) triples per run with one-field-different tuples; the cookie-collision known finding is reproduced from its witness."),
     "C09": ("§5 C09", "table-size probe after every frame against the validated-flow model + counting-allocator live-heap measurement across unvalidated floods",
             "Held on 1.6*10^6 flood frames per run (heap delta measured exactly) and ~7*10^3 model scripts; cookie-collision known finding reproduced."),
@@ -31,7 +31,7 @@ TEXT = {
             "The matcher-level sub-space is enumerated completely (328 product states, 84040 real matcher steps); observable consequences are confirmed at frame level; the 101 divergence edges of the unchanged tree are a recorded known finding (two root causes)."),
     "C11": ("§5 C11", "all 1-cut and 2-cut segmentations (+ sampled k-cuts, byte-wise) of grammar-generated HTTP / RPC streams against the unsegmented reference and the grammar's trigger byte",
             "Held on ~10^5-10^6 sessions per run: every one- and two-cut composition of each sampled stream; streams are sampled, not enumerated."),
-    "C12": ("§5 C12", "reply-typed message corpus (hand-made + the responder's own replies bounced back) with reflection-chain following; non-triviality checked by flipping the reply marker",
+    "C12": ("§5 C12", "reply-typed message corpus (hand-made + the responder's own replies bounced back; spliced three-segment streams embedding a request tail) with reflection-chain following; non-triviality checked by flipping the reply marker",
             "Held on ~7*10^5 chains per run over all enumerated reply kinds, both IP versions."),
     "C13": ("§5 C13", "HTTP request grammar + single-fault corruptions, response decoded by an independent parser (status, challenge, Content-Length vs. body)",
             "Held on ~10^5 positive and ~7*10^5 single-fault negative requests per run over UDP and TCP."),
@@ -43,9 +43,9 @@ TEXT = {
             "Held on ~9*10^5 calls per run; shadowed xids are excluded by the matcher-agreement precondition (C10)."),
     "C17": ("§5 C17", "independent NBSS/SMB1/SMB2 codecs over random correlation ids, dialect lists (permutations, duplicates, unknown), blob lengths, all commands",
             "Held on ~4*10^5 positive and ~2*10^5 negative requests per run."),
-    "C18": ("§5 C18", "SSH identification-string grammar with arbitrary bytes + malformed variants; Gh0st frame decoded with CPython zlib",
+    "C18": ("§5 C18", "SSH identification-string grammar with arbitrary bytes, length boundaries + malformed variants; Gh0st frame decoded with CPython zlib; two-segment sessions idle vs. inside a crowd of 2 x 66 000 connections",
             "Held on ~3*10^5 banners and Gh0st payloads per run."),
-    "C19": ("§5 C19", "metamorphic placement independence: same payload to 24 (ports, IP version) placements per transport, canonical replies compared",
+    "C19": ("§5 C19", "metamorphic placement independence: same payload to 24 (ports, IP version) placements per transport, canonical replies compared; scanner-style stage (one client, one source port, many services in one table)",
             "Held on ~4*10^4 payloads x 48 placements per run incl. mutated payloads."),
     "C20": ("§5 C20", "independent parsers of both log formats + per-frame event grammar, fate, field and reach-model monitor on stdout of the real loggers",
             "Held on ~2*10^6 frames per run under both loggers; 17 distinct event words observed, all balanced."),
